@@ -17,6 +17,7 @@ import (
 	"time"
 
 	tea "github.com/charmbracelet/bubbletea"
+	"github.com/charmbracelet/x/term"
 )
 
 func init() {
@@ -185,6 +186,12 @@ func kindsReachUpdate(out *scenOut) {
 		tea.Sequence(noop, noop)(), // the (unexported) sequence message
 		userMsg{4, 1},
 		tea.WindowSizeMsg{Width: 80, Height: 24},
+		tea.WindowSizeMsg{}, // what an un-sized pty reports: still a message
+		tea.WindowSizeMsg{Width: 80, Height: 0},
+		tea.WindowSizeMsg{Width: -1, Height: -1},
+		tea.WindowSizeMsg{Width: 1 << 30, Height: 1},
+		tea.KeyMsg{},
+		tea.MouseMsg{X: -1, Y: -1},
 		tea.EnableReportFocus(),
 		tea.FocusMsg{},
 		tea.BlurMsg{},
@@ -1131,6 +1138,9 @@ func scenFilter(out *scenOut, r *rng, thorough bool) {
 	}
 	filterSignal(out)
 	for _, verdict := range []string{"keep", "drop", "replace"} {
+		for _, outcome := range []string{"ok", "fails", "release-fails"} {
+			filterExecResult(out, verdict, outcome)
+		}
 		filterNestedSeq(out, verdict)
 		for _, nested := range []bool{false, true} {
 			for _, from := range []string{"update", "init"} {
@@ -1529,4 +1539,83 @@ func filterOnce(out *scenOut, r *rng, idx int) {
 	out.mu.Lock()
 	out.TracesOK++
 	out.mu.Unlock()
+}
+
+// filterExecResult: the message an Exec callback produces is a message like any other, whatever
+// the outcome of the command (success, failure, terminal could not be released): the filter is
+// consulted for it exactly once and its verdict obeyed.
+func filterExecResult(out *scenOut, verdict, outcome string) {
+	ctl := newRecCtl()
+	pr, pw, err := os.Pipe()
+	if err != nil {
+		return
+	}
+	defer pw.Close()
+	defer pr.Close()
+	var run *progRun
+	ready := make(chan struct{})
+	fe := &fakeExec{run: func(f *fakeExec) error {
+		if outcome == "fails" {
+			return errExecFailed
+		}
+		return nil
+	}}
+	var consulted int32
+	filter := func(name string, m tea.Msg) tea.Msg {
+		if _, ok := m.(execDoneMsg); ok {
+			atomic.AddInt32(&consulted, 1)
+			switch verdict {
+			case "drop":
+				return nil
+			case "replace":
+				return userMsg{78, 0}
+			}
+		}
+		return m
+	}
+	ctl.onUpdate = func(m tea.Msg, v int) tea.Cmd {
+		if u, ok := m.(userMsg); ok && u.Sender == 9 {
+			<-ready
+			if outcome == "release-fails" {
+				gone, err := os.Open(os.DevNull)
+				if err == nil {
+					gone.Close()
+					tea.VerifSetTTYInput(run.p, gone, &term.State{})
+				}
+			}
+			return tea.Exec(fe, func(err error) tea.Msg { return execDoneMsg{Tag: "x", Err: err} })
+		}
+		return nil
+	}
+	run = startProgram(ctl, nil, tea.WithInput(pr), tea.WithoutSignalHandler(), loggingFilter(ctl, filter))
+	close(ready)
+	desc := fmt.Sprintf("Exec with a callback, command outcome=%s; the filter's verdict on the callback's message: %s", outcome, verdict)
+	waitFor(2*time.Second, func() bool { return ctl.log.has("view-exit", "") })
+	run.p.Send(userMsg{9, 0})
+	waitFor(3*time.Second, func() bool { return atomic.LoadInt32(&consulted) > 0 || ctl.log.has("update-exit", "execdone:x") })
+	run.p.Send(userMsg{0, 1}) // a probe: everything before it has been processed
+	waitFor(2*time.Second, func() bool { return ctl.log.has("update-exit", "u0.1") })
+	out.record("filter-exec/"+verdict+"/"+outcome, desc)
+	if n := atomic.LoadInt32(&consulted); n != 1 {
+		out.fail(finding{Property: "C16", Class: "new", What: "the filter was not consulted exactly once for the message of an Exec callback", Input: desc, Expected: "1", Observed: fmt.Sprint(n)})
+	}
+	gotDone := ctl.log.count("update-enter", "execdone:x")
+	gotRepl := ctl.log.count("update-enter", "u78.0")
+	wantDone, wantRepl := 0, 0
+	switch verdict {
+	case "keep":
+		wantDone = 1
+	case "replace":
+		wantRepl = 1
+	}
+	if gotDone != wantDone || gotRepl != wantRepl {
+		out.fail(finding{Property: "C16", Class: "new", What: "the filter's verdict on the message of an Exec callback was not obeyed", Input: desc,
+			Expected: fmt.Sprintf("Update sees the callback message %d times and the replacement %d times", wantDone, wantRepl),
+			Observed: fmt.Sprintf("callback message %d times, replacement %d times", gotDone, gotRepl)})
+	}
+	run.p.Quit()
+	if !run.wait(3 * time.Second) {
+		run.p.Kill()
+		run.wait(3 * time.Second)
+	}
 }
